@@ -300,6 +300,7 @@ func (m *runtimeContextManager) TerminateContext(format string, args ...interfac
 		return
 	}
 	m.status = StatusKilled
+	verifOnTerminate(m)
 	panic(ContextTerminationError{
 		message: fmt.Sprintf(format, args...),
 	})
@@ -307,5 +308,8 @@ func (m *runtimeContextManager) TerminateContext(format string, args ...interfac
 
 // Current unix time in ms
 func now() uint64 {
+	if ms, ok := verifClock(); ok {
+		return ms
+	}
 	return uint64(time.Now().UnixNano() / 1e6)
 }
